@@ -152,7 +152,7 @@ pub fn gen_world(r: &mut Rng) -> World {
     }
     // Hostile identity overlaps.
     if nclients >= 4 {
-        match r.below(8) {
+        match r.below(9) {
             3 => {
                 // RFC 4361 identifiers (255, IAID, DUID): same DUID, different IAID = two interfaces of one host, two clients
                 let duid: Vec<u8> = [vec![0u8, *r.pick(&[1u8, 2, 3, 4])], r.bytes_in(6, 12)].concat();
@@ -172,6 +172,14 @@ pub fn gen_world(r: &mut Rng) -> World {
                 let a = r.bytes_in(2, 10);
                 clients[0].client_id = Some(a.clone());
                 clients[1].client_id = Some([a, vec![if r.bool() { 0u8 } else { r.u8() }]].concat());
+            }
+            7 => {
+                // a hardware address of 8 (or 16) octets whose first six are another client's MAC: another client
+                let mut long = clients[0].chaddr.clone();
+                long.extend_from_slice(if r.bool() { &[0x12, 0x34] } else { &[0, 0, 0, 0, 0, 0, 0, 0, 0, 1] });
+                clients[1].chaddr = long;
+                clients[0].client_id = None;
+                clients[1].client_id = None;
             }
             6 => {
                 // 01||MAC vs the bare MAC of ANOTHER client vs the same octets in upper/lower-case ASCII
@@ -902,6 +910,21 @@ impl<'a> HistoryRun<'a> {
                 1 => extra.push((82u8, vec![1, 4, 0, 0, 0, 7, 2, 4, 0xaa, 0xbb, 0xcc, 0xdd])),
                 2 => extra.push((60u8, b"MSFT 5.0".to_vec())),
                 _ => extra.push((93u8, vec![0, 7])),
+            }
+        }
+        if giaddr != 0 && r.chance(1, 2) {
+            // relay agent information with a "server identifier override" sub-option (RFC 5107) naming whatever server this
+            // message names: a relay's say-so does not make a foreign server ours
+            let named: Option<Vec<u8>> = match &sid {
+                Sid::Foreign(x) => Some(x.to_be_bytes().to_vec()),
+                Sid::Own => Some(server_ip(subnet).octets().to_vec()),
+                _ => None,
+            };
+            if let Some(n) = named {
+                let mut v = vec![1u8, 2, 0, 7, 11, 4];
+                v.extend_from_slice(&n);
+                extra.retain(|(c, _)| *c != 82);
+                extra.push((82u8, v));
             }
         }
         if r.chance(1, 4) {
